@@ -18,10 +18,16 @@ EXTENDS RouterHandler, TraceBase
 
 tvars == <<rvars, l>>
 
-TInit == RInit /\ LInit
+TInit == /\ hp = [m \in Msgs |-> FALSE]
+         /\ ph = [m \in Msgs |-> "idle"]
+         /\ settle = [m \in Msgs |-> "none"]
+         /\ res = [m \in Msgs |-> NoRes]
+         /\ pubres = [m \in Msgs |-> "none"]
+         /\ calls = [m \in Msgs |-> 0]
+         /\ LInit
 
 TReset == /\ Is("reset")
-          /\ hp' = Ev.haspub
+          /\ hp' = [m \in Msgs |-> Ev.haspub]
           /\ ph' = [m \in Msgs |-> "idle"]
           /\ settle' = [m \in Msgs |-> "none"]
           /\ res' = [m \in Msgs |-> NoRes]
